@@ -117,8 +117,9 @@ class ScriptedExecutor(P.ProcessExecutor):
                 done.append([self._fid(f), st])
         alive = sum(1 for _, p in self._running_id_to_future_and_process.values() if p.is_alive())
         SCRIPT.max_running_seen = max(SCRIPT.max_running_seen, len(running))
-        if len(running) > self.max_workers:
-            SCRIPT.violations.append(('worker-limit-exceeded', f'{len(running)} worker processes with max_workers={self.max_workers}'))
+        limit = SCRIPT.expected_maxw if getattr(SCRIPT, 'expected_maxw', None) is not None else self.max_workers
+        if len(running) > limit:
+            SCRIPT.violations.append(('worker-limit-exceeded', f'{len(running)} worker processes with max_workers={limit}'))
         return dict(running=running, pendq=pendq, done=done, alive=alive)
 
     def submit(self, fn, /, *args, **kwargs):
@@ -215,6 +216,8 @@ def run_l2(case, p_kill=0.15):
     Returns (coordinator-level observation, executor-level script)."""
     global SCRIPT
     SCRIPT = Script(random.Random(case['sched_seed']), p_kill=p_kill)
+    # the limit the run is judged by is the one the Lab was given (default: the CPU count), not what the executor believes
+    SCRIPT.expected_maxw = case['max_workers'] if case.get('max_workers') is not None else os.cpu_count()
     case = dict(case, runner='l2')
     with patched():
         obs = S.run_case(case, backend_factory=lambda rec: S.SpyBackend(L2Backend(), rec))
